@@ -50,8 +50,8 @@ def compare(case, impl, model):
 #   Rescue digests (commitments, Merkle nodes): the digest readers reduce, they do not refuse -> never a parse error;
 #       a different residue is a different digest (some verification error), the same residue is the same proof (ok)
 #   a FRI layer without values is refused by Proof::from_bytes (parse-err); without paths by the typed parser
-#   Lagrange-kernel AIR: GKR proof absent / undecodable -> ProofDeserializationError, decodable but wrong ->
-#       GkrProofVerificationFailed
+#   Lagrange-kernel AIR: GKR proof absent / undecodable / followed by left-over bytes -> ProofDeserializationError,
+#       decodable but wrong -> GkrProofVerificationFailed
 def expected_outcome(label, res):
     """None = as expected, else a description of what was expected (res: outcome class, first token of the result)"""
     lab = label
@@ -82,9 +82,10 @@ def expected_outcome(label, res):
         else:
             want = ["parse-err"]
     elif lag:
-        if lab == "valid" or lab.startswith("gkr=right"):
+        if lab == "valid" or lab == "gkr=right:9-byte-form":
             want = ["ok"]
-        elif lab == "gkr=none" or lab.startswith("gkr=undecodable") or lab.startswith("frame"):
+        # bytes left over after the GKR proof are refused (fixes/c03-gkr-trailing-bytes)
+        elif lab == "gkr=none" or lab.startswith("gkr=undecodable") or lab.startswith("gkr=right+trailing") or lab.startswith("frame"):
             want = ["err:ProofDeserializationError"]
         elif lab.startswith("gkr=wrong"):
             want = ["err:GkrProofVerificationFailed"]
@@ -150,7 +151,7 @@ def cell_obligations(ctx, tag, cells, with_lag):
         for fld in ("f64", "f128", "f62"):
             for kind in ("mod", "mod+1", "ones"):
                 need.append(("proof", "elem", fld, "ood.lagrange", kind))
-        need += [("lag", "valid"), ("lag", "gkr=none"), ("lag", "gkr=undecodable"), ("lag", "gkr=wrong"), ("lag", "gkr=right"), ("lag", "frame-1")]
+        need += [("lag", "valid"), ("lag", "gkr=none"), ("lag", "gkr=undecodable"), ("lag", "gkr=wrong"), ("lag", "gkr=right"), ("lag", "gkr=right+trailing"), ("lag", "frame-1")]
     missing = [k for k in need if seen.get(k, 0) == 0]
     ctx.ob(f"element-cells-all-sampled:{tag}", not missing, f"{len(missing)} of {len(need)} (level, component, field, value kind) cells never sampled: " + ", ".join("/".join(k) for k in missing[:8]))
     lneed = [("f64", 0), ("f64", 1), ("f64", 2), ("f128", 0), ("f128", 1), ("f62", 0), ("f62", 1), ("f62", 2)]
